@@ -30,6 +30,7 @@ var sinks = []sink{
 	{"anteUpper", "x/reporter/ante", "TrackStakeChangesDecorator.AnteHandle", "allowedUpperBound"},
 	{"rewardAmount", "x/oracle/keeper", "CalculateRewardAmount", "amount"},
 	{"powerThreshold", "x/bridge/keeper", "Keeper.SetBridgeValidatorParams", "powerThreshold"},
+	{"ratio", "x/dispute/keeper", "Ratio", "ratioDec"},
 }
 
 type tr struct {
@@ -38,6 +39,34 @@ type tr struct {
 	defs   map[string]ast.Expr // local single assignments seen so far
 	params []string
 	seen   map[string]bool
+}
+
+// frozen is a pre-translated expression (translated under the bindings in force where it was assigned)
+type frozen struct {
+	ast.Expr
+	lean string
+}
+
+func (t *tr) freeze(e ast.Expr) ast.Expr {
+	defer func() {
+		// an untranslatable binding only matters if the sink uses it: keep it lazy
+		recover()
+	}()
+	var out ast.Expr = e
+	func() {
+		defer func() {
+			if r := recover(); r != nil {
+				out = &lazyFail{Expr: e, msg: fmt.Sprint(r)}
+			}
+		}()
+		out = &frozen{Expr: e, lean: t.ex(e)}
+	}()
+	return out
+}
+
+type lazyFail struct {
+	ast.Expr
+	msg string
 }
 
 func (t *tr) fail(n ast.Node, msg string) {
@@ -80,6 +109,10 @@ func (t *tr) ex(e ast.Expr) string {
 		return s
 	}
 	switch x := e.(type) {
+	case *frozen:
+		return x.lean
+	case *lazyFail:
+		panic(x.msg)
 	case *ast.ParenExpr:
 		return t.ex(x.X)
 	case *ast.Ident:
@@ -213,6 +246,9 @@ func formulas() {
 		func() {
 			defer func() {
 				if r := recover(); r != nil {
+					if os.Getenv("EXTRACT_DEBUG") != "" {
+						panic(r)
+					}
 					fmt.Fprintln(os.Stderr, "extract:", s.lean, ":", r)
 					sb.WriteString("-- " + s.lean + ": NOT TRANSLATED: " + strings.ReplaceAll(fmt.Sprint(r), "\n", " ") + "\n\n")
 					failed = true
@@ -240,45 +276,90 @@ func formulas() {
 			}
 			t := &tr{p: pk, c: c, defs: map[string]ast.Expr{}, seen: map[string]bool{}}
 			var target ast.Expr
-			assigned := map[string]int{}
-			// first pass: count assignments per identifier (only single-assignment locals are substituted)
-			ast.Inspect(fd.Body, func(n ast.Node) bool {
-				if as, ok := n.(*ast.AssignStmt); ok {
-					for _, l := range as.Lhs {
-						if id, ok := l.(*ast.Ident); ok {
-							assigned[id.Name]++
+			// sequential environment over the statements in source order: `x := e` and `x = e` bind x to e with the
+			// bindings known so far substituted (so a re-assignment such as `total = total.MulRaw(4)` is followed);
+			// anything assigned inside a loop, or by an op-assignment (+=, …), is havoc: it stays a free variable.
+			havoc := map[string]bool{}
+			var walk func(n ast.Node, inLoop bool)
+			bind := func(name string, rhs ast.Expr, inLoop bool, tok token.Token) {
+				if inLoop || (tok != token.DEFINE && tok != token.ASSIGN) {
+					havoc[name] = true
+					delete(t.defs, name)
+					return
+				}
+				// substitute current bindings now (sequential semantics)
+				t.defs[name] = t.freeze(rhs)
+			}
+			walk = func(n ast.Node, inLoop bool) {
+				if n == nil || target != nil {
+					return
+				}
+				switch x := n.(type) {
+				case *ast.AssignStmt:
+					if len(x.Lhs) == len(x.Rhs) {
+						for i, l := range x.Lhs {
+							if id, ok := l.(*ast.Ident); ok {
+								if id.Name == s.v {
+									target = t.freeze(x.Rhs[i])
+									return
+								}
+								bind(id.Name, x.Rhs[i], inLoop, x.Tok)
+							}
+						}
+					} else {
+						for _, l := range x.Lhs {
+							if id, ok := l.(*ast.Ident); ok {
+								havoc[id.Name] = true
+								delete(t.defs, id.Name)
+							}
 						}
 					}
-				}
-				return true
-			})
-			ast.Inspect(fd.Body, func(n ast.Node) bool {
-				as, ok := n.(*ast.AssignStmt)
-				if !ok || len(as.Lhs) != len(as.Rhs) {
-					return true
-				}
-				for i, l := range as.Lhs {
-					id, ok := l.(*ast.Ident)
-					if !ok {
-						continue
+				case *ast.IncDecStmt:
+					if id, ok := x.X.(*ast.Ident); ok {
+						havoc[id.Name] = true
+						delete(t.defs, id.Name)
 					}
-					if id.Name == s.v && target == nil {
-						target = as.Rhs[i]
-					} else if assigned[id.Name] == 1 && as.Tok == token.DEFINE {
-						t.defs[id.Name] = as.Rhs[i]
+				case *ast.ForStmt:
+					walk(x.Body, true)
+				case *ast.RangeStmt:
+					walk(x.Body, true)
+				case *ast.BlockStmt:
+					for _, st := range x.List {
+						walk(st, inLoop)
 					}
+				case *ast.IfStmt:
+					walk(x.Init, inLoop)
+					walk(x.Body, inLoop)
+					walk(x.Else, inLoop)
+				case *ast.SwitchStmt:
+					walk(x.Body, inLoop)
+				case *ast.TypeSwitchStmt:
+					walk(x.Body, inLoop)
+				case *ast.CaseClause:
+					for _, st := range x.Body {
+						walk(st, inLoop)
+					}
+				case *ast.DeclStmt:
 				}
-				return true
-			})
+			}
+			walk(fd.Body, false)
 			if target == nil {
 				panic("variable " + s.v + " not assigned in " + s.fn)
 			}
 			body := t.ex(target)
+			_ = havoc
 			var ps []string
 			for _, p := range t.params {
 				ps = append(ps, "("+p+" : Int)")
 			}
-			sb.WriteString(fmt.Sprintf("/-- %s.%s : `%s := %s` -/\n", s.pkg, s.fn, s.v, c.expr(target)))
+			var orig ast.Node = target
+			if fz, ok := target.(*frozen); ok {
+				orig = fz.Expr
+			}
+			if lf, ok := target.(*lazyFail); ok {
+				orig = lf.Expr
+			}
+			sb.WriteString(fmt.Sprintf("/-- %s.%s : `%s := %s` -/\n", s.pkg, s.fn, s.v, c.expr(orig)))
 			sb.WriteString(fmt.Sprintf("def %s %s : Int :=\n  %s\n\n", s.lean, strings.Join(ps, " "), body))
 		}()
 	}
